@@ -537,38 +537,47 @@ def _replay_rules(facts, R):
     for b, i, t in facts.calls_to(RING + "::push"):
         R.check(b.path == TC + "::push_replay", "evict-discipline", b.path, "ring.push caller", "ReplayRing::push called from " + b.path, t.get("span"))
     for b, i, t in facts.calls_to(RING + "::clear"):
-        R.check(b.path == TC + "::advance_to_file", "evict-discipline", b.path, "ring.clear caller", "ReplayRing::clear called from " + b.path, t.get("span"))
+        switches = any(w["kind"] == "store" and w["body"] is b for w in field_writes(facts, INNER, "current_file_index"))
+        R.check(b.path == TC + "::advance_to_file" or (b.path.startswith(TC + "::") and switches), "evict-discipline", b.path, "ring.clear caller",
+                "ReplayRing::clear called from %s, which does not move the transfer to another file" % b.path, t.get("span"))
 
     # ---------- advance-clears ------------------------------------------------------------------------
-    af = facts.body(TC + "::advance_to_file")
-    asym = Sym(af)
-    clears = [term_pt(af, i) for i, t in af.calls() if callee_matches(t["callee"], RING + "::clear") and _is_f(asym.op(t["args"][0]), "replay")]
-    if not clears:
-        # the ring replaced by a fresh one (`replay = ReplayRing::new(cap)`, alone or as part of a whole-state literal) is empty
-        fresh = [(w["bb"], w["idx"]) for w in field_writes(facts, INNER, "replay") if w["body"] is af and w["kind"] == "store" and is_call(asym.rvalue(w["rv"]), RING + "::new")]
-        if fresh:
-            clears = fresh
-    if not clears:
-        # ReplayRing::clear folded in: replay.chunks.clear() and replay.bytes_held = 0, both on every path (the pair is one event)
-        cc = [term_pt(af, i) for i, t in af.calls() if t["callee"]["name"] == "clear" and "VecDeque" in t["callee"]["path"] and "replay.chunks" in render(asym.op(t["args"][0]))]
-        zz = [(w["bb"], w["idx"]) for w in field_writes(facts, RING, "bytes_held") if w["body"] is af and w["kind"] == "store" and const_val(asym.rvalue(w["rv"])) == 0]
-        if cc and zz and must_cross(af, [(0, 0)], return_points(af), zz, after_start=False) is None:
-            clears = cc
-    wp = must_cross(af, [(0, 0)], return_points(af), clears, after_start=False)
-    R.check(clears and wp is None, "advance-clears", af.path, "replay.clear on all paths", "advance_to_file can return without clearing the replay ring", af.span, path=wp)
-    nones = []
-    for w in field_writes(facts, INNER, "pending_resume"):
-        if w["body"] is af and w["kind"] == "store":
-            v = asym.rvalue(w["rv"])
-            if v[0] == "agg" and v[2] == "None":
-                nones.append((w["bb"], w["idx"]))
-    # `pending_resume.take()` empties the slot just the same (whatever is done with what was in it)
-    for i, t in af.calls():
-        if t["callee"]["name"] == "take" and "Option" in t["callee"]["path"] and t["args"] and _is_f(asym.op(t["args"][0]), "pending_resume"):
-            nones.append(term_pt(af, i))
-    wp = must_cross(af, [(0, 0)], return_points(af), nones, after_start=False)
-    R.check(nones and wp is None, "advance-clears", af.path, "pending_resume = None on all paths",
-            "advance_to_file can return with a stale pending resume", af.span, path=wp)
+    # the functions that move the transfer to another file: advance_to_file and every sibling that stores current_file_index (a variant
+    # that also retunes the window, a skip-ahead); each owes the whole reset - ring emptied, staged resume dropped - on every path
+    adv = [facts.body(TC + "::advance_to_file")]
+    for w in field_writes(facts, INNER, "current_file_index"):
+        if w["kind"] == "store" and w["body"] not in adv and w["body"].path.startswith(TC + "::") and not w["body"].path.endswith("::new") and "::tests::" not in w["body"].path:
+            adv.append(w["body"])
+    R.floor("advance-clears", len(adv), 1, "functions that switch the current file")
+    for af in adv:
+        asym = Sym(af)
+        clears = [term_pt(af, i) for i, t in af.calls() if callee_matches(t["callee"], RING + "::clear") and _is_f(asym.op(t["args"][0]), "replay")]
+        if not clears:
+            # the ring replaced by a fresh one (`replay = ReplayRing::new(cap)`, alone or as part of a whole-state literal) is empty
+            fresh = [(w["bb"], w["idx"]) for w in field_writes(facts, INNER, "replay") if w["body"] is af and w["kind"] == "store" and is_call(asym.rvalue(w["rv"]), RING + "::new")]
+            if fresh:
+                clears = fresh
+        if not clears:
+            # ReplayRing::clear folded in: replay.chunks.clear() and replay.bytes_held = 0, both on every path (the pair is one event)
+            cc = [term_pt(af, i) for i, t in af.calls() if t["callee"]["name"] == "clear" and "VecDeque" in t["callee"]["path"] and "replay.chunks" in render(asym.op(t["args"][0]))]
+            zz = [(w["bb"], w["idx"]) for w in field_writes(facts, RING, "bytes_held") if w["body"] is af and w["kind"] == "store" and const_val(asym.rvalue(w["rv"])) == 0]
+            if cc and zz and must_cross(af, [(0, 0)], return_points(af), zz, after_start=False) is None:
+                clears = cc
+        wp = must_cross(af, [(0, 0)], return_points(af), clears, after_start=False)
+        R.check(clears and wp is None, "advance-clears", af.path, "replay.clear on all paths", "%s can return without clearing the replay ring" % af.path.rsplit("::", 1)[-1], af.span, path=wp)
+        nones = []
+        for w in field_writes(facts, INNER, "pending_resume"):
+            if w["body"] is af and w["kind"] == "store":
+                v = asym.rvalue(w["rv"])
+                if v[0] == "agg" and v[2] == "None":
+                    nones.append((w["bb"], w["idx"]))
+        # `pending_resume.take()` empties the slot just the same (whatever is done with what was in it)
+        for i, t in af.calls():
+            if t["callee"]["name"] == "take" and "Option" in t["callee"]["path"] and t["args"] and _is_f(asym.op(t["args"][0]), "pending_resume"):
+                nones.append(term_pt(af, i))
+        wp = must_cross(af, [(0, 0)], return_points(af), nones, after_start=False)
+        R.check(nones and wp is None, "advance-clears", af.path, "pending_resume = None on all paths",
+                "%s can return with a stale pending resume" % af.path.rsplit("::", 1)[-1], af.span, path=wp)
     if RING + "::clear" not in facts.bodies:
         return      # folded into advance_to_file: judged there (above)
     cl = facts.body(RING + "::clear")
